@@ -15,16 +15,20 @@ from common import coq_list, coq_N
 
 IMPORTS = 'From XV Require Import Base Tree.'
 TAGS = {'root': 1, 'section': 2, 'title': 3, 'para': 4, 'item': 5, 'note': 6, 'value': 7, 'tag': 8, 'bogus': 9, 'wrap': 10,
-        'entry': 11, 'mark': 12}
+        'entry': 11, 'mark': 12, 'code': 13, 'size': 14}
 NS = 'urn:d'
 WNS = 'urn:w'      # namespace of the undeclared wrapper element matched by the lax wildcard
 
 
-def schema_xsd(ns):
+def schema_xsd(ns, version='1.0'):
     tns = ' targetNamespace="%s" xmlns:t="%s" elementFormDefault="qualified"' % (NS, NS) if ns else ''
     p = 't:' if ns else ''
     return (('<xs:schema xmlns:xs="http://www.w3.org/2001/XMLSchema"%s>'
+            '<xs:simpleType name="numOrDate"><xs:union memberTypes="xs:int xs:date"/></xs:simpleType>'
+            '<xs:simpleType name="codeType"><xs:restriction base="%snumOrDate"><xs:pattern value="[0-9]{4}(-[0-9]{2}-[0-9]{2})?"/>'
+            '</xs:restriction></xs:simpleType>'
             '<xs:complexType name="itemType"><xs:sequence><xs:element name="value" type="xs:int"/>'
+            '<xs:element name="code" type="%scodeType" minOccurs="0"/><xs:element name="size" type="%snumOrDate" minOccurs="0"/>'
             '<xs:element name="tag" type="xs:token" minOccurs="0" maxOccurs="unbounded"/></xs:sequence>'
             '<xs:attribute name="n" type="xs:int" use="required"/>'
             '<xs:attribute name="kind"><xs:simpleType><xs:restriction base="xs:string"><xs:enumeration value="a"/>'
@@ -35,13 +39,15 @@ def schema_xsd(ns):
             '<xs:element name="section" type="%ssectionType" minOccurs="0" maxOccurs="2">UNIQ</xs:element>'
             '<xs:sequence minOccurs="0" maxOccurs="unbounded"><xs:element name="entry" type="%sitemType"/>'
             '<xs:element name="mark" type="xs:string"/></xs:sequence>'
-            '<xs:element name="note" type="xs:string" minOccurs="0"/>'
+            '<xs:element name="note" type="xs:anySimpleType" minOccurs="0">NOTEALT</xs:element>'
             '<xs:any namespace="##other" processContents="lax" minOccurs="0"/></xs:sequence>'
             '<xs:attribute name="id" type="xs:NCName" use="required"/><xs:attribute name="level" type="xs:int"/>'
-            '</xs:complexType>'
+            '<xs:attribute name="lang" type="xs:string"LANGINH/></xs:complexType>'
             '<xs:element name="section" type="%ssectionType">UNIQ</xs:element>'
             '<xs:element name="root"><xs:complexType><xs:sequence><xs:element name="section" type="%ssectionType" '
-            'maxOccurs="unbounded">UNIQ</xs:element></xs:sequence></xs:complexType></xs:element></xs:schema>' % (tns, p, p, p, p, p)
+            'maxOccurs="unbounded">UNIQ</xs:element></xs:sequence></xs:complexType></xs:element></xs:schema>' % (tns, p, p, p, p, p, p, p, p)
+            ).replace('NOTEALT', '<xs:alternative test="@lang=\'x\'" type="xs:int"/>' if version == '1.1' else ''
+            ).replace('LANGINH', ' inheritable="true"' if version == '1.1' else ''
             ).replace('UNIQ', '<xs:unique name="UI1"><xs:selector xpath="%sitem|%sentry"/><xs:field xpath="@n"/></xs:unique>' % (p, p), 1
             ).replace('UNIQ', '<xs:unique name="UI2"><xs:selector xpath="%sitem|%sentry"/><xs:field xpath="@n"/></xs:unique>' % (p, p), 1
             ).replace('UNIQ', '<xs:unique name="UI3"><xs:selector xpath="%sitem|%sentry"/><xs:field xpath="@n"/></xs:unique>' % (p, p), 1))
@@ -55,6 +61,9 @@ def gen_doc(rng, depth=0):
         counter[0] += 1
         return {'tag': tag, 'attrs': dict({'n': str(counter[0])}, **({'kind': rng.choice('ab')} if rng.random() < 0.5 else {})),
                 'text': None, 'kids': [{'tag': 'value', 'attrs': {}, 'text': str(rng.randint(0, 99)), 'kids': []}] +
+                # two union-typed siblings: code is restricted by a pattern that the values of size do not match
+                ([{'tag': 'code', 'attrs': {}, 'text': rng.choice(['2024', '2024-02-29', '1999']), 'kids': []}] if rng.random() < 0.5 else []) +
+                ([{'tag': 'size', 'attrs': {}, 'text': rng.choice(['7', '12', '123456']), 'kids': []}] if rng.random() < 0.6 else []) +
                 [{'tag': 'tag', 'attrs': {}, 'text': 'k%d' % i, 'kids': []} for i in range(rng.choice([0, 0, 1, 2, 3]))]}
 
     def section(d):
@@ -75,6 +84,8 @@ def gen_doc(rng, depth=0):
         attrs = {'id': 's%d' % rng.randint(0, 999)}
         if rng.random() < 0.5:
             attrs['level'] = str(d)
+        if rng.random() < 0.3:
+            attrs['lang'] = 'en'
         return {'tag': 'section', 'attrs': attrs, 'text': None, 'kids': kids}
     return {'tag': 'root', 'attrs': {}, 'text': None, 'kids': [section(0) for _ in range(rng.choice([1, 2, 3]))]}
 
@@ -116,11 +127,21 @@ def faults(doc, rng=None):
             return d
         if n['tag'] in INT_TEXT:
             out.append(('badvalue', a, mutated(lambda x: x.__setitem__('text', 'x!'))))
+        if n['tag'] in ('code', 'size'):
+            # a text that no member type of the union can decode / that the pattern of the restricted union refuses
+            out.append(('badvalue', a, mutated(lambda x: x.__setitem__('text', '20x4'))))
+            if n['tag'] == 'code':
+                out.append(('badvalue', a, mutated(lambda x: x.__setitem__('text', '12345'))))
         for an in n['attrs']:
             if an in INT_ATTR:
                 out.append(('badattr', a, mutated(lambda x, an=an: x['attrs'].__setitem__(an, 'x!'))))
         if n['tag'] in REQ_ATTR:
             out.append(('missingattr', a, mutated(lambda x: x['attrs'].pop(REQ_ATTR[x['tag']]))))
+        if n['tag'] == 'section' and any(k['tag'] == 'note' for _a, k in nodes(n)) \
+                and not any(k['tag'] == 'section' and 'lang' in k['attrs'] for _a, k in nodes(n) if k is not n):
+            # XSD 1.1 only: the inheritable attribute lang selects, through a type alternative, the type of the notes below
+            # this section (xs:int for lang='x'): they become invalid, the notes of the following sections do not
+            out.append(('altattr', a, mutated(lambda x: x['attrs'].__setitem__('lang', 'x'))))
         if n['tag'] in ('section', 'item', 'entry'):
             out.append(('extraattr', a, mutated(lambda x: x['attrs'].__setitem__('zz', '1'))))
             out.append(('missingchild', a, mutated(lambda x: x['kids'].pop(0))))
@@ -155,7 +176,7 @@ def subject(case):
     key = (case['ns'], case['version'])
     if key not in _S:
         cls = xmlschema.XMLSchema11 if case['version'] == '1.1' else xmlschema.XMLSchema10
-        _S[key] = cls(schema_xsd(case['ns']))
+        _S[key] = cls(schema_xsd(case['ns'], case['version']))
     s = _S[key]
     xml = render(case['doc'], case['ns'])
     if case['parser'] == 'lxml':
@@ -272,6 +293,8 @@ def evaluate(ctx, cases):
         else:
             if o['valid']:
                 explor.append('the document damaged by %s at %s is reported valid' % (c['fault'], D))
+            elif c['fault'] == 'altattr':
+                pass    # the value is valid for the attribute itself: the errors are at the notes below (locality judged above)
             elif not any(e.get('addr') is not None and (e['addr'] == D or e['addr'] == D[:-1]) for e in o['errors']):
                 explor.append('no error is located at the damaged node %s or its parent (fault %s): %s'
                               % (D, c['fault'], [(e['path'], e['reason']) for e in o['errors']][:2]))
@@ -287,16 +310,23 @@ def gen(ctx):
     rng = ctx.rng
     cases = []
     ndocs = 6 if ctx.quick() else 80
-    for i in range(ndocs):
-        doc = gen_doc(rng)
+    def sec(i, kids=()):
+        return {'tag': 'section', 'attrs': {'id': 'f%d' % i}, 'text': None,
+                'kids': [{'tag': 'title', 'attrs': {}, 'text': 'T', 'kids': []}] + list(kids) + [{'tag': 'note', 'attrs': {}, 'text': 'n', 'kids': []}]}
+    # every section carries a note (and one a nested section with a note): what a section inherits must not reach its siblings
+    fixed = {'tag': 'root', 'attrs': {}, 'text': None, 'kids': [sec(1), sec(2, [sec(3)]), sec(4)]}
+    for i in range(ndocs + 2):
+        doc = gen_doc(rng) if i < ndocs else fixed
         ns = bool(i % 2)
         fl = faults(doc)
         if ctx.quick() and len(fl) > 80:
             fl = rng.sample(fl, 80)
         for parser in ('default', 'lxml'):
-            version = '1.1' if (i // 2) % 2 else '1.0'
+            version = '1.1' if (i // 2) % 2 or i >= ndocs else '1.0'
             cases.append({'doc': doc, 'ns': ns, 'version': version, 'parser': parser, 'fault': 'none', 'damaged': None})
             for kind, a, d in fl:
+                if kind == 'altattr' and version != '1.1':
+                    continue
                 if parser == 'lxml' and ctx.quick() and rng.random() < 0.6:
                     continue
                 cases.append({'doc': d, 'ns': ns, 'version': version, 'parser': parser, 'fault': kind, 'damaged': list(a)})
